@@ -527,7 +527,14 @@ fn enumerate_decoder(d: &Decoder, tier: Tier) -> Acc {
 /// keys outside today's parser alphabet: whatever the parser lets through must not panic the
 /// decoders that treat keys as tags
 fn key_alphabet_sweep(acc: &mut Acc) {
-    let keys = strings_over(&["a", "Z", "_", "-", "0", " ", "\u{e9}", ".", ":"], 3);
+    let mut keys = strings_over(&["a", "Z", "_", "-", "0", " ", "\u{e9}", ".", ":"], 3);
+    // (round 7) long names: every length 20..=40 and some far beyond (a stack buffer sized for the longest known
+    // tag), plain and as a known name with a tail
+    for n in (20usize..=40).chain([63, 64, 65, 127, 128, 129, 255, 256, 257, 1000, 5000]) {
+        keys.push("k".repeat(n));
+        keys.push(format!("MUSICBRAINZ_RELEASETRACKID{}", "x".repeat(n.saturating_sub(26))));
+        keys.push(format!("Artist{}", "_".repeat(n.saturating_sub(6))));
+    }
     let decs = decoders();
     let tagged: Vec<&Decoder> = decs.iter().filter(|d| ["playlistinfo", "find", "list", "list-group1", "currentsong"].contains(&d.name)).collect();
     for k in keys.iter().filter(|k| !k.is_empty()) {
